@@ -15,6 +15,7 @@ import SE.Props.C14
 import SE.Props.C15
 import SE.Props.C16
 import SE.Props.C17
+import SE.Props.C18
 import SE.Props.C20
 import SE.Gen.TieLine
 import SE.Gen.TieMapper
